@@ -10,6 +10,25 @@ mutually adjoint, and `reduce ∘ expand = id` for unit root-sum-of-squares maps
 
 All statements are about the definitions of `Model/Complex.lean` (the ones the driver executes over
 `Rat`), instantiated at `ℝ` and read in `ℂ` through `toC ⟨re, im⟩ = re + im·i`.
+
+**Float-range note (`C02_float_range_note`).**  Every theorem below is over `ℝ` / `ℂ`, where the squares
+`b₀² + b₁²`, `a₀² + a₁²` and the products `aᵢ bⱼ` always exist.  In float32 the *same formulas* leave
+the representable range although operands and exact result are ordinary float32 numbers; on the
+current tree (known findings, keys `float-range:<helper>:<class>` of `harness/props/c02.py`):
+
+* `complex_division`: `1e20 / 1e20 = nan` (`overflow-nan`), `(3e19+4e19i) / 1e19 = 3 + inf·i`
+  (`numerator-overflow-inf`), `1 / 1e20 = 0` (`divisor-square-overflow-zero`), `1e-30 / 1e-30 = 0`
+  (`underflow-zero`: `b₀² + b₁²` underflows to 0 and `safe_divide` then treats `b` as zero — so
+  `cdiv_eq` holds in `ℝ` for *every* `b ≠ 0`, in float32 only for `|b| ≳ 1e-19`), `1e-37 / 1e-9 = 0`
+  (`numerator-underflow-zero`), `1e-37 / 1e-8 = 1.4e-29` (`underflow-inaccurate`, denormal numerator);
+* `modulus`, `root_sum_of_squares`: `|3e19+4e19i| = inf`, `|3e-30+4e-30i| = 0`,
+  `|3e-23+4e-23i| = 5.29e-23` (`overflow-inf`, `underflow-zero`, `underflow-inaccurate`) — so
+  `modulus_sq_eq_normSq` / `rssSq_eq` describe the float32 code only while the squares stay in range.
+
+`complex_multiplication`, `conjugate`, `complex_dot_product`, `complex_mm/bmm`, `expand_operator`,
+`reduce_operator` show no such deviation (their float32 result is non-finite only when the exact
+result is).  A range-safe division (Smith's algorithm) / `hypot`-style modulus would remove the
+findings; no theorem here claims anything about float32 rounding, overflow or underflow.
 -/
 namespace DirectVerif.C02
 open DirectVerif DirectVerif.Cx
@@ -35,7 +54,8 @@ theorem cmul_eq (a b : Cpx ℝ) : toC (cmul a b) = toC a * toC b := by
 theorem conj_eq (a : Cpx ℝ) : toC (Cx.conj a) = conj (toC a) := by
   apply Complex.ext <;> simp [toC, Cx.conj]
 
-/-- `(data**2).sum(-1)` is `|z|²` (so `modulus = √normSq = ‖z‖`) -/
+/-- `(data**2).sum(-1)` is `|z|²` (so `modulus = √normSq = ‖z‖`)
+(over `ℝ`; float-range note: in float32 the square overflows for `|z| ≳ 1.8e19` and underflows for `|z| ≲ 1e-19`) -/
 theorem modulus_sq_eq_normSq (a : Cpx ℝ) : modSq a = Complex.normSq (toC a) := by
   simp [modSq, toC, Complex.normSq_apply]
 
@@ -49,7 +69,8 @@ theorem cdivNum_eq (a b : Cpx ℝ) : toC (cdivNum a b) = toC a * conj (toC b) :=
   · simp [toC, cdivNum]
     ring
 
-/-- `complex_division` is complex division wherever the divisor is non-zero -/
+/-- `complex_division` is complex division wherever the divisor is non-zero
+(over `ℝ`; see the float-range note at the top: in float32 `cdivDen b` can be `0` or `inf` for `b ≠ 0`) -/
 theorem cdiv_eq (a b : Cpx ℝ) (hb : toC b ≠ 0) : toC (cdiv a b) = toC a / toC b := by
   have hn : Complex.normSq (toC b) ≠ 0 := fun h => hb (Complex.normSq_eq_zero.mp h)
   have hd : cdivDen b ≠ 0 := by rw [cdivDen_eq_normSq]; exact hn
